@@ -104,6 +104,23 @@ def run(chk) -> None:
             chk.ob("C02.R2", "steps resumed through a waiter in this tick are skipped by normal routing", skip_ok, m=m, node=c, fn=fn, instance="route:waiter-skip",
                    reason=f"routing is not excluded for members of {sorted(woken_sets) or 'the waiter-resolved set (not found)'}")
 
+    # R2: a step enters the waiter-resolved set exactly when one of its waiters is resumed in this tick
+    for w in waiter:
+        wl = next((l for l in ast.walk(fn) if isinstance(l, ast.For) and any(x is w for x in ast.walk(l)) and not any(isinstance(y, ast.For) and y is not l and any(x is w for x in ast.walk(y)) for y in ast.walk(l) if y is not l)), None)
+        adds = [x for x in ast.walk(fn) if isinstance(x, ast.Call) and isinstance(x.func, ast.Attribute) and x.func.attr == "add" and isinstance(x.func.value, ast.Name)
+                and any(x is y for y in ast.walk(wl or fn))]
+        chk.floor("C02.R2", "registrations of a waiter-woken step", len(adds), 1)
+        heads = cfg.nodes_of(wl) if wl is not None else []
+        en = cfg.nodes_of(enclosing_stmt(w))
+        for a in adds:
+            an = cfg.nodes_of(enclosing_stmt(a))
+            # from the registration every normal path to the next waiter (or out of the loop) passes the resume, and vice versa
+            a_without_e = cfg.must_pass(an, heads + [cfg.exit], en, labels_excluded=("exc", "cancel"), include_starts=False) if not all(x not in cfg.reach([cfg.entry], blocked=en) for x in an) else []
+            e_without_a = cfg.must_pass(en, heads + [cfg.exit], an, labels_excluded=("exc", "cancel"), include_starts=False) if not all(x not in cfg.reach([cfg.entry], blocked=an) for x in en) else []
+            chk.ob("C02.R2", "a step is excluded from normal routing only when one of its waiters is actually resumed by this event (registration and resume lie on the same paths)",
+                   not a_without_e and not e_without_a, m=m, node=a, fn=fn, instance="route:waiter-skip-only-when-resumed",
+                   reason="a path registers the step as waiter-woken without resuming a waiter (or resumes without registering): an event for a step that also accepts it would be delivered neither as wait result nor as input, or twice")
+
     # ---------------------------------------------------------------- R5 UnhandledEvent
     un = [c for c in calls_named(fn, "UnhandledEvent")]
     chk.floor("C02.R5", "UnhandledEvent publications", len(un), 1)
@@ -252,6 +269,7 @@ TWINS = [
     Twin("target ignored", _P, "if is_accepted and (tick.step_name is None or tick.step_name == step_name):", "if is_accepted:", "C02.R1"),
     Twin("target inverted", _P, "tick.step_name is None or tick.step_name == step_name", "tick.step_name is None or tick.step_name != step_name", "C02.R1"),
     Twin("waiter skip removed", _P, "        if step_name in waiter_resolved_steps:\n            continue\n", "", "C02.R2"),
+    Twin("step marked woken although waiter not resumed", _P, "            if is_match:\n                handled = True\n                waiter_resolved_steps.add(step_name)", "            if type(tick.event) is wait_condition.waiting_for_event:\n                waiter_resolved_steps.add(step_name)\n            if is_match:\n                handled = True", "C02.R2"),
     Twin("handled not set on waiter path", _P, "                handled = True\n                waiter_resolved_steps.add(step_name)", "                waiter_resolved_steps.add(step_name)", "C02.R5"),
     Twin("unhandled suppressed when idle", _P, "        if not isinstance(tick.event, InputRequiredEvent):\n            event_cls", "        if not isinstance(tick.event, InputRequiredEvent) and tick.step_name is None:\n            event_cls", "C02.R5"),
     Twin("output dropped for HITL", _P, "                if isinstance(result.result, InputRequiredEvent):\n                    commands.append(CommandPublishEvent(event=result.result))\n                commands.append(",
